@@ -1,4 +1,2580 @@
 package main
 
-// genExprTree: placeholder until the translation of this part of the library is written (an empty generated file).
-func genExprTree() string { return "" }
+// Translation of expression.go (package qframe) into Gallina (coq/Gen/GenExprTree.v, tie T1 for the expression
+// trees of Eval: properties C07 and C10).
+//
+// EVERY function of expression.go is translated statement by statement into a definition ge_<name>
+// (ge_<T>_<method> for a method).  coq/Proofs/GenExprTreeProofs.v proves every generated definition equal to
+// the hand-written model of coq/Model/Eval.v (new_expr / expr_call / temp_col_name / get_fn / execute), so that
+// an edit of expression.go changes the generated text and breaks a named theorem T1_expr_<name> of
+// coq/Properties/T1Expr.v, while the theorems of C07 / C10 keep talking about the model.
+//
+// THE SCHEME (anything that does not fit is reported through problem(...); the block then keeps the text of the
+// golden copy, marked FALLBACK, so that the development still builds — the exit status says the tie is broken).
+//
+//	boundary    The frame and the evaluation context are NOT translated.  QFrame is the abstract type F, touched
+//	            only through  qf.Err -> qf_Err qf : option E,  qf.withErr(e) -> qf_withErr qf e  (body text-matched)
+//	            and the calls  qf.Apply(instr) -> qf_Apply qf [instr],  qf.Drop(cols...) -> qf_Drop qf cols,
+//	            qf.Contains(name) -> qf_Contains qf name,  qf.functionType(name) -> qf_functionType qf name,
+//	            which answer outcome (signatures text-matched; Panic = the Go call panics).  *eval.Context is the
+//	            abstract type C with  ctx.GetFunc(typ, ac, name) -> ctx_GetFunc ctx typ ac name : outcome (ge_Any *
+//	            bool);  eval.ArgCount is AC (eval.ArgCountOne / eval.ArgCountTwo are eval_ArgCountOne /
+//	            eval_ArgCountTwo), types.FunctionType is FT.  strconv.Itoa is strconv_Itoa : Z -> bytes.
+//	errors      error -> option E (nil = None), E abstract; qerrors.New(op, format, params...) -> err_New op format
+//	            (the two string literals as byte strings; the params are evaluated and dropped: an error is
+//	            known up to its operation and message format), qerrors.Propagate(op, err) -> err_Propagate op err.
+//	strings     string and types.ColumnName are bytes; the conversions between them are the identity; + is ++.
+//	integers    Go int -> Z, exact (lengths and counters only).
+//	interface{} The dynamic types the file distinguishes (every T of an assertion x.(T) or of a case of a type
+//	            switch) become the constructors of  Inductive ge_Any:  ge_dyn_nil (the nil interface),
+//	            ge_dyn_<T> (v : payload) in order of first occurrence, and ge_dyn_other (v : DV) for every other
+//	            dynamic type (DV abstract).  Payloads: Expression -> ge_Expression (an implementer of the package; a
+//	            nil Expression is outside the translation), string / types.ColumnName -> bytes, []interface{} ->
+//	            list ge_Any, int -> Z, float64 -> FL (abstract), bool -> bool, *string -> option bytes.
+//	            x.(T) with comma-ok is a match answering (payload, true) or (zero, false);
+//	            if v, ok := x.(T); ok { A } else { B } is  match x with ge_dyn_T v => A | _ => B end;
+//	            switch x.(type) { case T1, T2: A default: B } is a match with or-patterns; x == nil is
+//	            ge_Any_isnil x.  A value stored where interface{} is expected is wrapped by its static type.
+//	interface   Expression is the closed sum of the struct types of the file that have the methods execute and
+//	            Err: Inductive ge_Expression (mutual with ge_Any) with one constructor ge_mk_<T> per implementer whose
+//	            arguments are the fields.  A VALUE of the struct type T is the record ge_T (constructor ge_new_T,
+//	            projections ge_T_f_<field>); T{f: e} is the constructor with the missing fields zero; using it
+//	            where an Expression is expected is ge_T_box.  The receiver of a method is passed as its fields
+//	            (<recv>_<field>).  x.m(..) with x of static struct type is the direct call ge_T_m; with x of type
+//	            Expression it is dynamic dispatch: Fixpoint ge_Expression_<m> by structural recursion over the tree,
+//	            one branch per implementer.  Inside the methods of the group being defined the dispatcher is the
+//	            first argument  self.
+//	results     every function answers outcome T (Panic = Go panic or fuel used up), several results as a tuple.
+//	            panic(..) is Panic (the message is dropped).  One BEGIN/END block per function; the members of a
+//	            recursive cycle share the block named after the first of them (ge_newExpr holds newExprExpr too).
+//	order       definitions are emitted callees first (reverse topological order of the static call graph, ties
+//	            in source order); the dispatcher of a method follows the methods of all implementers.
+//	fuel        a function that contains a for loop with a condition, that is recursive (alone or mutually: the
+//	            members of a cycle of the static call graph are one Fixpoint .. with .. on fuel), or that calls
+//	            such a function takes (fuel : nat) first:  match fuel with O => Panic | S fuel' => body end; inside
+//	            body every for loop is entered with the budget fuel', every call of a fuelled function gets fuel'.
+//	            The dispatcher of a group with a fuelled method takes fuel and stays structural in the tree.
+//	statements  x := e; a, b := f(..); a, b = f(..); var x T; x = e; x++; s[i] = e; copy(d[lo:], s) -> let / do.
+//	conditions  a && b, a || b are && / || when b is pure, otherwise the whole condition is bound first:
+//	            do t <- (if a then (..; Ok b) else Ok false).
+//	if          no return inside: do (assigned outer variables) <- (if c then ..; Ok (..) else ..; Ok (..)); rest
+//	            otherwise the rest of the block is continued inside the branches that fall through.
+//	for         for init; cond; post { body }: Fixpoint ge_f_loopN [fuel'] (k : nat) (variables it mentions)
+//	            {struct k}: O => Panic, S k' => if cond then body; post; loop k' .. else EXIT.  A loop without
+//	            return answers the outer variables it assigns (EXIT = Ok (those)); a loop with a return inside
+//	            also contains the statements that follow it (EXIT = the rest of the function).
+//	range       for i, v := range X { body }: Fixpoint ge_f_loopN (l : list T) [(v_i : Z)] (variables) {struct l};
+//	            no fuel.
+//	rejected    break, continue, goto, labels, value switch, defer, closures, maps, pointers other than the
+//	            literal (*string)(nil), an inner := that shadows an outer variable, dynamic dispatch inside a
+//	            loop, everything else.
+
+import (
+	"flag"
+	"fmt"
+	"go/ast"
+	"go/token"
+	"os"
+	"path/filepath"
+	"strconv"
+	"strings"
+)
+
+const geFile = "expression.go"
+
+// the text the fixed vocabulary stands for (printed by go/printer; without "{" only the signature is compared)
+var geVocabulary = []struct{ pkg, fn, text string }{
+	{".", "QFrame.withErr", "func (qf QFrame) withErr(err error) QFrame {\n\treturn QFrame{Err: err, columns: qf.columns, columnsByName: qf.columnsByName, index: qf.index}\n}"},
+	{".", "QFrame.Apply", "func (qf QFrame) Apply(instructions ...Instruction) QFrame"},
+	{".", "QFrame.Drop", "func (qf QFrame) Drop(columns ...string) QFrame"},
+	{".", "QFrame.Contains", "func (qf QFrame) Contains(colName string) bool"},
+	{".", "QFrame.functionType", "func (qf QFrame) functionType(name string) (types.FunctionType, error)"},
+	{"config/eval", "Context.GetFunc", "func (ctx *Context) GetFunc(typ types.FunctionType, ac ArgCount, name string) (interface{}, bool)"},
+	{"qerrors", "New", "func New(operation, reason string, params ...interface{}) Error"},
+	{"qerrors", "Propagate", "func Propagate(operation string, err error) Error"},
+}
+
+const gePreamble = `(* GENERATED by tools/qf2coq (exprtree.go) from expression.go of tobgu/qframe — do not edit.
+   One definition ge_<function> per translated Go function (ge_<T>_<method> for a method), one Fixpoint
+   ge_<function>_loopN per loop, Inductive ge_Any for the dynamic values of interface{} and ge_Expression for the
+   interface Expression, one record ge_<T> per implementer, one structural Fixpoint ge_Expression_<method> per
+   interface method; the scheme is described at the top of tools/qf2coq/exprtree.go.  F = QFrame, C =
+   *eval.Context, AC = eval.ArgCount, FT = types.FunctionType, E = error value, FL = float64, DV = the dynamic
+   values of all other types are abstract; Apply / Drop / Contains / functionType / GetFunc are variables.  Every
+   function answers outcome T (Panic = Go panic or fuel used up); a function with a conditional loop or with
+   recursion takes fuel first: O => Panic, S fuel' => the body, whose loops and fuelled calls all get fuel'. *)
+From QF Require Import Base.Prelude.
+Local Open Scope Z_scope.
+
+(* make([]T, n), s[i], s[i] = v, s[lo:], copy(d[lo:], s) *)
+Definition ge_make {T : Type} (zero : T) (n : Z) : outcome (list T) :=
+  if n <? 0 then Panic else Ok (repeat zero (Z.to_nat n)).
+Definition ge_index {T : Type} (s : list T) (i : Z) : outcome T :=
+  if i <? 0 then Panic else idx s (Z.to_nat i).
+Definition ge_update {T : Type} (s : list T) (i : Z) (v : T) : outcome (list T) :=
+  if i <? 0 then Panic else do _ <- idx s (Z.to_nat i); Ok (set_nth s (Z.to_nat i) v).
+Definition ge_from {T : Type} (s : list T) (lo : Z) : outcome (list T) :=
+  if (lo <? 0) || (Z.of_nat (length s) <? lo) then Panic else Ok (skipn (Z.to_nat lo) s).
+Definition ge_copy_at {T : Type} (d : list T) (lo : Z) (s : list T) : outcome (list T) :=
+  if (lo <? 0) || (Z.of_nat (length d) <? lo) then Panic
+  else let tail := skipn (Z.to_nat lo) d in
+       Ok (firstn (Z.to_nat lo) d ++ firstn (length tail) s ++ skipn (length s) tail).
+(* x == nil for an error *)
+Definition ge_isnil {T : Type} (p : option T) : bool := match p with None => true | Some _ => false end.
+
+Section GenExprTree.
+Context {F C AC FT E FL DV : Type}.
+Variable qf_Err : F -> option E.                                   (* qf.Err *)
+Variable qf_withErr : F -> option E -> F.                          (* qf.withErr(err) *)
+Variable qf_Contains : F -> bytes -> outcome bool.                 (* qf.Contains(name) *)
+Variable qf_Drop : F -> list bytes -> outcome F.                   (* qf.Drop(names...) *)
+Variable qf_functionType : F -> bytes -> outcome (FT * option E).  (* qf.functionType(name) *)
+Variable err_New : bytes -> bytes -> E.                            (* qerrors.New(operation, format, ...) *)
+Variable err_Propagate : bytes -> option E -> E.                   (* qerrors.Propagate(operation, err) *)
+Variable eval_ArgCountOne eval_ArgCountTwo : AC.                   (* eval.ArgCountOne, eval.ArgCountTwo *)
+Variable strconv_Itoa : Z -> bytes.                                (* strconv.Itoa *)
+
+`
+
+// ------------------------------------------------------------------ types
+
+type geT struct {
+	k     string // int bool string colname ustring any anys strings colnames frame ctx argcount functype err qerr iface struct instr pstring float nil tuple bad
+	sname string
+	elems []*geT
+}
+
+func geK(k string) *geT { return &geT{k: k} }
+
+var geBad = geK("bad")
+
+func (t *geT) same(u *geT) bool {
+	if t.k != u.k || t.sname != u.sname || len(t.elems) != len(u.elems) {
+		return false
+	}
+	for i := range t.elems {
+		if !t.elems[i].same(u.elems[i]) {
+			return false
+		}
+	}
+	return true
+}
+
+func (t *geT) coq() string {
+	switch t.k {
+	case "int":
+		return "Z"
+	case "bool":
+		return "bool"
+	case "string", "colname", "ustring":
+		return "bytes"
+	case "any", "nil":
+		return "ge_Any"
+	case "anys":
+		return "(list ge_Any)"
+	case "strings", "colnames":
+		return "(list bytes)"
+	case "frame":
+		return "F"
+	case "ctx":
+		return "C"
+	case "argcount":
+		return "AC"
+	case "functype":
+		return "FT"
+	case "err":
+		return "(option E)"
+	case "qerr":
+		return "E"
+	case "iface":
+		return "ge_Expression"
+	case "struct":
+		return "ge_" + t.sname
+	case "instr":
+		return "ge_Instruction"
+	case "pstring":
+		return "(option bytes)"
+	case "float":
+		return "FL"
+	case "tuple":
+		var parts []string
+		for _, e := range t.elems {
+			parts = append(parts, e.coq())
+		}
+		return gcTypeTuple(parts)
+	}
+	return "?"
+}
+
+func (t *geT) elem() *geT {
+	switch t.k {
+	case "anys":
+		return geK("any")
+	case "strings":
+		return geK("string")
+	case "colnames":
+		return geK("colname")
+	}
+	return nil
+}
+
+func (t *geT) zero() (string, bool) {
+	switch t.k {
+	case "int":
+		return "0", true
+	case "bool":
+		return "false", true
+	case "string", "colname":
+		return "(@nil N)", true
+	case "any":
+		return "ge_dyn_nil", true
+	case "anys":
+		return "(@nil ge_Any)", true
+	case "strings", "colnames":
+		return "(@nil bytes)", true
+	case "err", "pstring":
+		return "None", true
+	case "struct":
+		im := geImplOf(t.sname)
+		if im == nil {
+			return "", false
+		}
+		parts := []string{"ge_new_" + im.name}
+		for _, f := range im.fields {
+			z, ok := f.ty.zero()
+			if !ok {
+				return "", false
+			}
+			parts = append(parts, z)
+		}
+		return "(" + strings.Join(parts, " ") + ")", true
+	}
+	return "", false
+}
+
+type geField struct {
+	name string
+	ty   *geT
+}
+
+type geImpl struct {
+	name   string
+	fields []geField
+}
+
+var geImpls []*geImpl
+var geMethods []string // the methods of the interface Expression, in source order
+var geInstr []geField  // the fields of Instruction
+
+func geImplOf(name string) *geImpl {
+	for _, im := range geImpls {
+		if im.name == name {
+			return im
+		}
+	}
+	return nil
+}
+
+// the dynamic types interface{} values are tested for
+type geDyn struct {
+	src, ctor string
+	ty        *geT
+}
+
+var geDynTable = []geDyn{
+	{"Expression", "ge_dyn_Expression", geK("iface")},
+	{"string", "ge_dyn_string", geK("string")},
+	{"types.ColumnName", "ge_dyn_ColumnName", geK("colname")},
+	{"[]interface{}", "ge_dyn_slice", geK("anys")},
+	{"int", "ge_dyn_int", geK("int")},
+	{"float64", "ge_dyn_float64", geK("float")},
+	{"bool", "ge_dyn_bool", geK("bool")},
+	{"*string", "ge_dyn_pstring", geK("pstring")},
+}
+var geDyns []geDyn // those that occur, in order of first occurrence
+
+func geDynOfSrc(src string) *geDyn {
+	for i := range geDyns {
+		if geDyns[i].src == src {
+			return &geDyns[i]
+		}
+	}
+	return nil
+}
+
+func geDynOfKind(k string) *geDyn {
+	for i := range geDyns {
+		if geDyns[i].ty.k == k {
+			return &geDyns[i]
+		}
+	}
+	return nil
+}
+
+// geResolve maps a Go type expression (source text) to a translation type
+func geResolve(src string) *geT {
+	switch src {
+	case "QFrame":
+		return geK("frame")
+	case "*eval.Context":
+		return geK("ctx")
+	case "eval.ArgCount":
+		return geK("argcount")
+	case "types.FunctionType":
+		return geK("functype")
+	case "types.ColumnName":
+		return geK("colname")
+	case "string":
+		return geK("string")
+	case "interface{}", "types.DataFuncOrBuiltInId":
+		return geK("any")
+	case "[]interface{}", "...interface{}":
+		return geK("anys")
+	case "[]string", "...string":
+		return geK("strings")
+	case "[]types.ColumnName":
+		return geK("colnames")
+	case "Expression":
+		return geK("iface")
+	case "error":
+		return geK("err")
+	case "int":
+		return geK("int")
+	case "bool":
+		return geK("bool")
+	case "Instruction":
+		return geK("instr")
+	}
+	if geImplOf(src) != nil {
+		return &geT{k: "struct", sname: src}
+	}
+	return geBad
+}
+
+// geLoadTypes reads the interface Expression, its implementers, the dynamic types tested and Instruction.
+func geLoadTypes(p *pkgInfo) bool {
+	geImpls, geMethods, geInstr, geDyns = nil, nil, nil, nil
+	okAll := true
+	f, found := p.files[geFile]
+	if !found {
+		problem("expression translation: %s not found", geFile)
+		return false
+	}
+	decls := map[string]ast.Expr{}
+	var order []string
+	for _, d := range f.Decls {
+		gd, ok := d.(*ast.GenDecl)
+		if !ok || gd.Tok != token.TYPE {
+			continue
+		}
+		for _, s := range gd.Specs {
+			ts := s.(*ast.TypeSpec)
+			decls[ts.Name.Name] = ts.Type
+			order = append(order, ts.Name.Name)
+		}
+	}
+	it, ok := decls["Expression"].(*ast.InterfaceType)
+	if !ok {
+		problem("expression translation: the interface Expression is not declared in %s", geFile)
+		return false
+	}
+	for _, m := range it.Methods.List {
+		if len(m.Names) != 1 {
+			problem("expression translation: the interface Expression embeds another interface")
+			okAll = false
+			continue
+		}
+		geMethods = append(geMethods, m.Names[0].Name)
+	}
+	for _, n := range order {
+		all := len(geMethods) > 0
+		for _, m := range geMethods {
+			if p.funcs[n+"."+m] == nil {
+				all = false
+			}
+		}
+		if all {
+			geImpls = append(geImpls, &geImpl{name: n})
+		}
+	}
+	for _, im := range geImpls {
+		st, ok := decls[im.name].(*ast.StructType)
+		if !ok {
+			problem("expression translation: implementer %s is not a struct", im.name)
+			okAll = false
+			continue
+		}
+		for _, fl := range st.Fields.List {
+			ty := geResolve(gcSrc(p.fset, fl.Type))
+			if ty.k == "bad" || ty.k == "struct" || len(fl.Names) == 0 {
+				problem("expression translation: field of %s has a type outside the scheme: %s", im.name, gcSrc(p.fset, fl.Type))
+				okAll = false
+				continue
+			}
+			for _, n := range fl.Names {
+				im.fields = append(im.fields, geField{n.Name, ty})
+			}
+		}
+	}
+	// the dynamic types tested
+	note := func(e ast.Expr) {
+		src := gcSrc(p.fset, e)
+		if src == "nil" || geDynOfSrc(src) != nil {
+			return
+		}
+		for _, d := range geDynTable {
+			if d.src == src {
+				geDyns = append(geDyns, d)
+				return
+			}
+		}
+		problem("expression translation: %s: a test for the dynamic type %s is outside the scheme", strings.TrimPrefix(p.fset.Position(e.Pos()).String(), repo+"/"), src)
+		okAll = false
+	}
+	ast.Inspect(f, func(n ast.Node) bool {
+		switch x := n.(type) {
+		case *ast.TypeAssertExpr:
+			if x.Type != nil {
+				note(x.Type)
+			}
+		case *ast.TypeSwitchStmt:
+			for _, cc := range x.Body.List {
+				for _, e := range cc.(*ast.CaseClause).List {
+					note(e)
+				}
+			}
+		}
+		return true
+	})
+	// Instruction (qframe.go)
+	for _, qfFile := range p.files {
+		for _, d := range qfFile.Decls {
+			gd, ok := d.(*ast.GenDecl)
+			if !ok || gd.Tok != token.TYPE {
+				continue
+			}
+			for _, s := range gd.Specs {
+				ts := s.(*ast.TypeSpec)
+				st, ok := ts.Type.(*ast.StructType)
+				if ts.Name.Name != "Instruction" || !ok {
+					continue
+				}
+				for _, fl := range st.Fields.List {
+					ty := geResolve(gcSrc(p.fset, fl.Type))
+					if ty.k != "any" && ty.k != "string" || len(fl.Names) == 0 {
+						problem("expression translation: field of Instruction has a type outside the scheme: %s", gcSrc(p.fset, fl.Type))
+						okAll = false
+						continue
+					}
+					for _, n := range fl.Names {
+						geInstr = append(geInstr, geField{n.Name, ty})
+					}
+				}
+			}
+		}
+	}
+	if len(geInstr) == 0 {
+		problem("expression translation: type Instruction struct not found")
+		okAll = false
+	}
+	// named types of other packages the scheme reads as bytes / interface{} / Z
+	for _, chk := range []struct{ pkg, name, text string }{
+		{"types", "ColumnName", "string"}, {"types", "DataFuncOrBuiltInId", "interface{}"},
+	} {
+		tp := loadPkg(chk.pkg)
+		got := ""
+		for _, tf := range tp.files {
+			for _, d := range tf.Decls {
+				if gd, ok := d.(*ast.GenDecl); ok && gd.Tok == token.TYPE {
+					for _, s := range gd.Specs {
+						if ts := s.(*ast.TypeSpec); ts.Name.Name == chk.name {
+							got = gcSrc(tp.fset, ts.Type)
+						}
+					}
+				}
+			}
+		}
+		if got != chk.text {
+			problem("expression translation: %s.%s is not %s", chk.pkg, chk.name, chk.text)
+			okAll = false
+		}
+	}
+	ep := loadPkg("config/eval")
+	for _, n := range []string{"ArgCountOne", "ArgCountTwo"} {
+		if _, ok := ep.consts[n]; !ok {
+			// ArgCountTwo has no value of its own (iota continuation): look for the name
+			foundName := false
+			for _, ef := range ep.files {
+				ast.Inspect(ef, func(x ast.Node) bool {
+					if vs, ok := x.(*ast.ValueSpec); ok {
+						for _, id := range vs.Names {
+							if id.Name == n {
+								foundName = true
+							}
+						}
+					}
+					return true
+				})
+			}
+			if !foundName {
+				problem("expression translation: eval.%s not found", n)
+				okAll = false
+			}
+		}
+	}
+	return okAll
+}
+
+func geInductive() string {
+	var b strings.Builder
+	b.WriteString("(* the dynamic values of interface{}: nil, the types the file tests for (in order of first occurrence), the rest;\n   the implementers of Expression (struct types with the methods " + strings.Join(geMethods, ", ") + "), in source order *)\n")
+	b.WriteString("Inductive ge_Any : Type :=\n| ge_dyn_nil\n")
+	for _, d := range geDyns {
+		fmt.Fprintf(&b, "| %s (v : %s)\n", d.ctor, strings.Trim(d.ty.coq(), "()"))
+	}
+	b.WriteString("| ge_dyn_other (v : DV)\nwith ge_Expression : Type :=\n")
+	for _, im := range geImpls {
+		fmt.Fprintf(&b, "| ge_mk_%s", im.name)
+		for _, f := range im.fields {
+			fmt.Fprintf(&b, " (%s : %s)", f.name, strings.Trim(f.ty.coq(), "()"))
+		}
+		b.WriteString("\n")
+	}
+	s := strings.TrimRight(b.String(), "\n") + ".\n"
+	b.Reset()
+	b.WriteString(s)
+	b.WriteString("(* x == nil for x of type interface{} *)\nDefinition ge_Any_isnil (x : ge_Any) : bool := match x with ge_dyn_nil => true | _ => false end.\n")
+	b.WriteString("(* the struct types as values, and their use where an Expression is expected *)\n")
+	for _, im := range geImpls {
+		if len(im.fields) == 0 {
+			fmt.Fprintf(&b, "Record ge_%s : Type := ge_new_%s { }.\n", im.name, im.name)
+		} else {
+			var fs []string
+			for _, f := range im.fields {
+				fs = append(fs, fmt.Sprintf("ge_%s_f_%s : %s", im.name, f.name, f.ty.coq()))
+			}
+			fmt.Fprintf(&b, "Record ge_%s : Type := ge_new_%s { %s }.\n", im.name, im.name, strings.Join(fs, "; "))
+		}
+		parts := []string{"ge_mk_" + im.name}
+		for _, f := range im.fields {
+			parts = append(parts, fmt.Sprintf("(ge_%s_f_%s x)", im.name, f.name))
+		}
+		fmt.Fprintf(&b, "Definition ge_%s_box (x : ge_%s) : ge_Expression := %s.\n", im.name, im.name, strings.Join(parts, " "))
+	}
+	b.WriteString("(* Instruction (qframe.go) and the calls that take it *)\n")
+	var fs []string
+	for _, f := range geInstr {
+		fs = append(fs, fmt.Sprintf("ge_Instruction_f_%s : %s", f.name, f.ty.coq()))
+	}
+	fmt.Fprintf(&b, "Record ge_Instruction : Type := ge_new_Instruction { %s }.\n", strings.Join(fs, "; "))
+	b.WriteString("Variable qf_Apply : F -> list ge_Instruction -> outcome F.           (* qf.Apply(instructions...) *)\n")
+	b.WriteString("Variable ctx_GetFunc : C -> FT -> AC -> bytes -> outcome (ge_Any * bool).  (* ctx.GetFunc(typ, ac, name) *)\n")
+	return b.String()
+}
+
+// ------------------------------------------------------------------ translation state
+
+type geVar struct {
+	name  string // Go name
+	coq   string // Coq name; "" for a struct receiver (its fields are <name>_<field>)
+	ty    *geT
+	level int // nesting depth of the block that declares it (0 = parameters and function body)
+}
+
+type geFunc struct {
+	goName    string // "newExpr", "colExpr.execute"
+	short     string
+	fd        *ast.FuncDecl
+	coq       string
+	recv      *geVar
+	impl      *geImpl
+	group     string // method of the interface: its name
+	params    []geVar
+	res       *geT
+	variadic  bool
+	needsFuel bool
+	needsSelf bool
+	recursive bool     // member of a cycle of the static call graph
+	scc       []string // the members of its cycle, in emission order
+	static    map[string]bool
+	dynamic   map[string]bool
+	sigText   string
+	bodyText  string
+	loops     []string
+	ok        bool
+}
+
+var geFuncs map[string]*geFunc
+var geOrder []string // Go names in source order
+var geGroupFuel map[string]bool
+
+type geCtx struct {
+	vars  []geVar
+	level int
+}
+
+func (c geCtx) lookup(name string) (geVar, bool) {
+	for i := len(c.vars) - 1; i >= 0; i-- {
+		if c.vars[i].name == name {
+			return c.vars[i], true
+		}
+	}
+	return geVar{}, false
+}
+
+func (c geCtx) with(v geVar) geCtx {
+	vs := make([]geVar, len(c.vars), len(c.vars)+1)
+	copy(vs, c.vars)
+	return geCtx{vars: append(vs, v), level: c.level}
+}
+
+func (c geCtx) inner() geCtx { return geCtx{vars: c.vars, level: c.level + 1} }
+
+type geTr struct {
+	p        *pkgInfo
+	f        *geFunc
+	bad      bool
+	ntmp     int
+	nloops   int
+	usesSelf bool
+	inLoop   int
+}
+
+func (t *geTr) fail(n ast.Node, format string, a ...interface{}) {
+	if !t.bad {
+		pos := ""
+		if n != nil {
+			pos = strings.TrimPrefix(t.p.fset.Position(n.Pos()).String(), repo+"/") + ": "
+		}
+		problem("expression translation of %s: %s%s", t.f.goName, pos, fmt.Sprintf(format, a...))
+	}
+	t.bad = true
+}
+
+func (t *geTr) src(n ast.Node) string { return gcSrc(t.p.fset, n) }
+
+func (t *geTr) tmp() string {
+	t.ntmp++
+	return fmt.Sprintf("t%d", t.ntmp)
+}
+
+// conv: a value of static type have where want is expected
+func (t *geTr) conv(n ast.Node, text string, have, want *geT) string {
+	if have.k == "bad" || want.k == "bad" {
+		return text
+	}
+	if have.same(want) {
+		return text
+	}
+	switch {
+	case have.k == "ustring" && (want.k == "string" || want.k == "colname"):
+		return text
+	case have.k == "nil" && want.k == "err":
+		return "None"
+	case have.k == "nil" && want.k == "any":
+		return "ge_dyn_nil"
+	case have.k == "qerr" && want.k == "err":
+		return "(Some " + text + ")"
+	case have.k == "struct" && want.k == "iface":
+		return "(ge_" + have.sname + "_box " + text + ")"
+	case want.k == "any":
+		hk := have.k
+		if hk == "ustring" {
+			hk = "string"
+		}
+		if hk == "struct" {
+			if d := geDynOfKind("iface"); d != nil {
+				return "(" + d.ctor + " (ge_" + have.sname + "_box " + text + "))"
+			}
+		} else if d := geDynOfKind(hk); d != nil {
+			return "(" + d.ctor + " " + text + ")"
+		}
+	}
+	t.fail(n, "a value of type %s%s stands where %s%s is expected: %s", have.k, have.sname, want.k, want.sname, t.src(n))
+	return text
+}
+
+func (t *geTr) stringLit(e ast.Expr) (string, bool) {
+	bl, ok := e.(*ast.BasicLit)
+	if !ok || bl.Kind != token.STRING {
+		return "", false
+	}
+	s, err := strconv.Unquote(bl.Value)
+	if err != nil {
+		return "", false
+	}
+	return coqBytes(s), true
+}
+
+// ------------------------------------------------------------------ expressions
+
+// expr translates a single-valued expression; calls are bound first (pre)
+func (t *geTr) expr(e ast.Expr, c geCtx, pre *[]string) (string, *geT) {
+	switch x := e.(type) {
+	case *ast.ParenExpr:
+		return t.expr(x.X, c, pre)
+	case *ast.BasicLit:
+		switch x.Kind {
+		case token.INT:
+			if strings.Trim(x.Value, "0123456789") == "" {
+				return x.Value, geK("int")
+			}
+		case token.STRING:
+			if s, ok := t.stringLit(x); ok {
+				return s, geK("ustring")
+			}
+		}
+		t.fail(e, "literal outside the scheme: %s", x.Value)
+		return "0", geBad
+	case *ast.Ident:
+		if v, ok := c.lookup(x.Name); ok {
+			if v.coq == "" {
+				t.fail(e, "the receiver %s is used as a value", x.Name)
+				return "0", geBad
+			}
+			return v.coq, v.ty
+		}
+		switch x.Name {
+		case "nil":
+			return "ge_dyn_nil", geK("nil")
+		case "true", "false":
+			return x.Name, geK("bool")
+		}
+		t.fail(e, "unknown identifier %s", x.Name)
+		return "0", geBad
+	case *ast.SelectorExpr:
+		if id, ok := x.X.(*ast.Ident); ok {
+			if _, isVar := c.lookup(id.Name); !isVar && id.Name == "eval" {
+				switch x.Sel.Name {
+				case "ArgCountOne", "ArgCountTwo":
+					return "eval_" + x.Sel.Name, geK("argcount")
+				}
+			}
+			if v, ok := c.lookup(id.Name); ok && v.ty.k == "struct" && v.coq == "" {
+				for _, f := range geImplOf(v.ty.sname).fields {
+					if f.name == x.Sel.Name {
+						return v.name + "_" + f.name, f.ty
+					}
+				}
+				t.fail(e, "unknown field %s", t.src(e))
+				return "0", geBad
+			}
+		}
+		y, ty := t.expr(x.X, c, pre)
+		switch ty.k {
+		case "frame":
+			if x.Sel.Name == "Err" {
+				return "(qf_Err " + y + ")", geK("err")
+			}
+		case "struct":
+			for _, f := range geImplOf(ty.sname).fields {
+				if f.name == x.Sel.Name {
+					return fmt.Sprintf("(ge_%s_f_%s %s)", ty.sname, f.name, y), f.ty
+				}
+			}
+		case "instr":
+			for _, f := range geInstr {
+				if f.name == x.Sel.Name {
+					return fmt.Sprintf("(ge_Instruction_f_%s %s)", f.name, y), f.ty
+				}
+			}
+		}
+		t.fail(e, "selector outside the scheme: %s", t.src(e))
+		return "0", geBad
+	case *ast.UnaryExpr:
+		if x.Op == token.NOT {
+			y, ty := t.expr(x.X, c, pre)
+			t.conv(x.X, y, ty, geK("bool"))
+			return "(negb " + y + ")", geK("bool")
+		}
+	case *ast.BinaryExpr:
+		return t.binary(x, c, pre)
+	case *ast.IndexExpr:
+		s, ty := t.expr(x.X, c, pre)
+		i, ti := t.expr(x.Index, c, pre)
+		t.conv(x.Index, i, ti, geK("int"))
+		el := ty.elem()
+		if el == nil {
+			t.fail(e, "index into something that is not a slice: %s", t.src(e))
+			return "0", geBad
+		}
+		v := t.tmp()
+		*pre = append(*pre, fmt.Sprintf("do %s <- ge_index %s %s;", v, s, i))
+		return v, el
+	case *ast.SliceExpr:
+		if x.Low != nil && x.High == nil && x.Max == nil {
+			s, ty := t.expr(x.X, c, pre)
+			lo, tl := t.expr(x.Low, c, pre)
+			t.conv(x.Low, lo, tl, geK("int"))
+			if ty.elem() != nil {
+				v := t.tmp()
+				*pre = append(*pre, fmt.Sprintf("do %s <- ge_from %s %s;", v, s, lo))
+				return v, ty
+			}
+		}
+		t.fail(e, "slice expression outside the scheme: %s", t.src(e))
+		return "[]", geBad
+	case *ast.CompositeLit:
+		return t.composite(x, c, pre)
+	case *ast.CallExpr:
+		text, ty := t.call(x, c, pre)
+		if ty.k == "tuple" {
+			t.fail(e, "a call with several results stands where one value is expected: %s", t.src(e))
+			return "0", geBad
+		}
+		return text, ty
+	case *ast.TypeAssertExpr:
+		t.fail(e, "a type assertion without the second result is outside the scheme: %s", t.src(e))
+		return "0", geBad
+	}
+	t.fail(e, "expression outside the scheme: %s", t.src(e))
+	return "0", geBad
+}
+
+func (t *geTr) binary(x *ast.BinaryExpr, c geCtx, pre *[]string) (string, *geT) {
+	switch x.Op {
+	case token.LAND, token.LOR:
+		a, ta := t.expr(x.X, c, pre)
+		t.conv(x.X, a, ta, geK("bool"))
+		var pre2 []string
+		b, tb := t.expr(x.Y, c, &pre2)
+		t.conv(x.Y, b, tb, geK("bool"))
+		if len(pre2) == 0 {
+			if x.Op == token.LAND {
+				return "(" + a + " && " + b + ")", geK("bool")
+			}
+			return "(" + a + " || " + b + ")", geK("bool")
+		}
+		v := t.tmp()
+		inner := "(" + strings.Join(pre2, " ") + " Ok " + b + ")"
+		if x.Op == token.LAND {
+			*pre = append(*pre, fmt.Sprintf("do %s <- (if %s then %s else Ok false);", v, a, inner))
+		} else {
+			*pre = append(*pre, fmt.Sprintf("do %s <- (if %s then Ok true else %s);", v, a, inner))
+		}
+		return v, geK("bool")
+	case token.EQL, token.NEQ:
+		a, ta := t.expr(x.X, c, pre)
+		b, tb := t.expr(x.Y, c, pre)
+		var text string
+		switch {
+		case tb.k == "nil" && ta.k == "err":
+			text = "(ge_isnil " + a + ")"
+		case tb.k == "nil" && ta.k == "any":
+			text = "(ge_Any_isnil " + a + ")"
+		case ta.k == "int" && tb.k == "int":
+			text = "(" + a + " =? " + b + ")"
+		case ta.k == "bool" && tb.k == "bool":
+			text = "(Bool.eqb " + a + " " + b + ")"
+		case (ta.k == "string" || ta.k == "colname" || ta.k == "ustring") && (tb.k == ta.k || tb.k == "ustring" || ta.k == "ustring") && (tb.k == "string" || tb.k == "colname" || tb.k == "ustring"):
+			text = "(bytes_eqb " + a + " " + b + ")"
+		default:
+			t.fail(x, "comparison outside the scheme: %s", t.src(x))
+			return "false", geBad
+		}
+		if x.Op == token.NEQ {
+			text = "(negb " + text + ")"
+		}
+		return text, geK("bool")
+	case token.LSS, token.LEQ, token.GTR, token.GEQ:
+		a, ta := t.expr(x.X, c, pre)
+		b, tb := t.expr(x.Y, c, pre)
+		t.conv(x.X, a, ta, geK("int"))
+		t.conv(x.Y, b, tb, geK("int"))
+		switch x.Op {
+		case token.LSS:
+			return "(" + a + " <? " + b + ")", geK("bool")
+		case token.LEQ:
+			return "(" + a + " <=? " + b + ")", geK("bool")
+		case token.GTR:
+			return "(" + b + " <? " + a + ")", geK("bool")
+		}
+		return "(" + b + " <=? " + a + ")", geK("bool")
+	case token.ADD, token.SUB:
+		a, ta := t.expr(x.X, c, pre)
+		b, tb := t.expr(x.Y, c, pre)
+		if ta.k == "int" && tb.k == "int" {
+			if x.Op == token.ADD {
+				return "(" + a + " + " + b + ")", geK("int")
+			}
+			return "(" + a + " - " + b + ")", geK("int")
+		}
+		isStr := func(k string) bool { return k == "string" || k == "ustring" }
+		if x.Op == token.ADD && isStr(ta.k) && isStr(tb.k) {
+			return "(" + a + " ++ " + b + ")", geK("string")
+		}
+		if x.Op == token.ADD && (ta.k == "colname" && (tb.k == "colname" || tb.k == "ustring") || ta.k == "ustring" && tb.k == "colname") {
+			return "(" + a + " ++ " + b + ")", geK("colname")
+		}
+	}
+	t.fail(x, "operator outside the scheme: %s", t.src(x))
+	return "0", geBad
+}
+
+func (t *geTr) composite(x *ast.CompositeLit, c geCtx, pre *[]string) (string, *geT) {
+	tsrc := t.src(x.Type)
+	if ty := geResolve(tsrc); ty.elem() != nil { // a slice literal
+		var parts []string
+		for _, el := range x.Elts {
+			if _, isKV := el.(*ast.KeyValueExpr); isKV {
+				t.fail(el, "slice literal with keys")
+				continue
+			}
+			y, ty2 := t.expr(el, c, pre)
+			parts = append(parts, t.conv(el, y, ty2, ty.elem()))
+		}
+		if len(parts) == 0 {
+			z, _ := ty.zero()
+			return z, ty
+		}
+		return "[" + strings.Join(parts, "; ") + "]", ty
+	}
+	var fields []geField
+	var ctor string
+	var rty *geT
+	if im := geImplOf(tsrc); im != nil {
+		fields, ctor, rty = im.fields, "ge_new_"+im.name, &geT{k: "struct", sname: im.name}
+	} else if tsrc == "Instruction" {
+		fields, ctor, rty = geInstr, "ge_new_Instruction", geK("instr")
+	} else {
+		t.fail(x, "composite literal outside the scheme: %s", t.src(x))
+		return "0", geBad
+	}
+	vals := map[string]string{}
+	for _, el := range x.Elts {
+		kv, ok := el.(*ast.KeyValueExpr)
+		if !ok {
+			t.fail(el, "composite literal without field names")
+			continue
+		}
+		name := t.src(kv.Key)
+		found := false
+		for _, f := range fields {
+			if f.name == name {
+				found = true
+				y, ty2 := t.expr(kv.Value, c, pre)
+				vals[name] = t.conv(kv.Value, y, ty2, f.ty)
+			}
+		}
+		if !found {
+			t.fail(el, "unknown field %s", name)
+		}
+	}
+	parts := []string{ctor}
+	for _, f := range fields {
+		if v, ok := vals[f.name]; ok {
+			parts = append(parts, v)
+		} else if z, ok := f.ty.zero(); ok {
+			parts = append(parts, z)
+		} else {
+			t.fail(x, "the field %s has no zero value in the scheme", f.name)
+		}
+	}
+	if len(parts) == 1 {
+		return parts[0], rty
+	}
+	return "(" + strings.Join(parts, " ") + ")", rty
+}
+
+// argsFor translates the arguments of a call of a translated function
+func (t *geTr) argsFor(g *geFunc, ce *ast.CallExpr, c geCtx, pre *[]string) []string {
+	var out []string
+	np := len(g.params)
+	if g.variadic && !ce.Ellipsis.IsValid() {
+		// f(a, b, extra...) : the extra arguments form the slice
+		if len(ce.Args) < np-1 {
+			t.fail(ce, "call of %s with too few arguments", g.goName)
+			return out
+		}
+		for i := 0; i < np-1; i++ {
+			y, ty := t.expr(ce.Args[i], c, pre)
+			out = append(out, t.conv(ce.Args[i], y, ty, g.params[i].ty))
+		}
+		var parts []string
+		el := g.params[np-1].ty.elem()
+		for _, a := range ce.Args[np-1:] {
+			y, ty := t.expr(a, c, pre)
+			parts = append(parts, t.conv(a, y, ty, el))
+		}
+		if len(parts) == 0 {
+			z, _ := g.params[np-1].ty.zero()
+			out = append(out, z)
+		} else {
+			out = append(out, "["+strings.Join(parts, "; ")+"]")
+		}
+		return out
+	}
+	if len(ce.Args) != np {
+		t.fail(ce, "call of %s with %d arguments (it has %d parameters)", g.goName, len(ce.Args), np)
+		return out
+	}
+	if ce.Ellipsis.IsValid() && !g.variadic {
+		t.fail(ce, "s... passed to a function that is not variadic")
+	}
+	for i, a := range ce.Args {
+		y, ty := t.expr(a, c, pre)
+		out = append(out, t.conv(a, y, ty, g.params[i].ty))
+	}
+	return out
+}
+
+func (t *geTr) bind(pre *[]string, callText string) string {
+	v := t.tmp()
+	*pre = append(*pre, fmt.Sprintf("do %s <- %s;", v, callText))
+	return v
+}
+
+func (t *geTr) staticCall(g *geFunc, n ast.Node, recvFields []string, args []string, pre *[]string) (string, *geT) {
+	parts := []string{g.coq}
+	if g.needsSelf {
+		if g.group == t.f.group && g.group != "" {
+			parts = append(parts, "self")
+			t.usesSelf = true
+		} else {
+			t.fail(n, "call of the method %s, which dispatches dynamically, from outside its group", g.goName)
+		}
+	}
+	if g.needsFuel {
+		parts = append(parts, "fuel'")
+	}
+	parts = append(parts, recvFields...)
+	parts = append(parts, args...)
+	return t.bind(pre, strings.Join(parts, " ")), g.res
+}
+
+func (t *geTr) call(ce *ast.CallExpr, c geCtx, pre *[]string) (string, *geT) {
+	// conversions
+	funSrc := t.src(ce.Fun)
+	if len(ce.Args) == 1 {
+		switch funSrc {
+		case "string", "types.ColumnName":
+			if _, shadow := c.lookup(funSrc); !shadow {
+				y, ty := t.expr(ce.Args[0], c, pre)
+				if ty.k != "string" && ty.k != "colname" && ty.k != "ustring" {
+					t.fail(ce, "conversion outside the scheme: %s", t.src(ce))
+				}
+				if funSrc == "string" {
+					return y, geK("string")
+				}
+				return y, geK("colname")
+			}
+		case "(*string)":
+			if t.src(ce.Args[0]) == "nil" {
+				return "None", geK("pstring")
+			}
+		}
+	}
+	switch fun := ce.Fun.(type) {
+	case *ast.Ident:
+		if _, isVar := c.lookup(fun.Name); isVar {
+			t.fail(ce, "call of a function value: %s", t.src(ce))
+			return "0", geBad
+		}
+		switch fun.Name {
+		case "len":
+			if len(ce.Args) == 1 {
+				y, ty := t.expr(ce.Args[0], c, pre)
+				if ty.elem() == nil && ty.k != "string" && ty.k != "colname" {
+					t.fail(ce, "len of something that is not a slice or a string")
+				}
+				return "(Z.of_nat (length " + y + "))", geK("int")
+			}
+		case "append":
+			if len(ce.Args) == 2 && !ce.Ellipsis.IsValid() {
+				s, ty := t.expr(ce.Args[0], c, pre)
+				el := ty.elem()
+				if el == nil {
+					t.fail(ce, "append to something that is not a slice")
+					return "[]", geBad
+				}
+				y, ty2 := t.expr(ce.Args[1], c, pre)
+				return "(" + s + " ++ [" + t.conv(ce.Args[1], y, ty2, el) + "])", ty
+			}
+		case "make":
+			if len(ce.Args) == 2 {
+				ty := geResolve(t.src(ce.Args[0]))
+				el := ty.elem()
+				if el == nil {
+					t.fail(ce, "make of a type outside the scheme: %s", t.src(ce))
+					return "[]", geBad
+				}
+				if t.src(ce.Args[1]) == "0" {
+					z, _ := ty.zero()
+					return z, ty
+				}
+				n, tn := t.expr(ce.Args[1], c, pre)
+				t.conv(ce.Args[1], n, tn, geK("int"))
+				z, ok := el.zero()
+				if !ok {
+					t.fail(ce, "make: the element type has no zero value in the scheme")
+				}
+				return t.bind(pre, "ge_make "+z+" "+n), ty
+			}
+		}
+		if g, ok := geFuncs[fun.Name]; ok {
+			args := t.argsFor(g, ce, c, pre)
+			return t.staticCall(g, ce, nil, args, pre)
+		}
+		t.fail(ce, "call outside the scheme: %s", t.src(ce))
+		return "0", geBad
+	case *ast.SelectorExpr:
+		if id, ok := fun.X.(*ast.Ident); ok {
+			if _, isVar := c.lookup(id.Name); !isVar {
+				switch id.Name + "." + fun.Sel.Name {
+				case "strconv.Itoa":
+					if len(ce.Args) == 1 {
+						y, ty := t.expr(ce.Args[0], c, pre)
+						t.conv(ce.Args[0], y, ty, geK("int"))
+						return "(strconv_Itoa " + y + ")", geK("string")
+					}
+				case "qerrors.New":
+					if len(ce.Args) >= 2 && !ce.Ellipsis.IsValid() {
+						op, ok1 := t.stringLit(ce.Args[0])
+						fm, ok2 := t.stringLit(ce.Args[1])
+						if !ok1 || !ok2 {
+							t.fail(ce, "qerrors.New: the operation and the format must be string literals")
+						}
+						for _, a := range ce.Args[2:] { // evaluated (a panic in them stays), then dropped
+							t.expr(a, c, pre)
+						}
+						return "(err_New " + op + " " + fm + ")", geK("qerr")
+					}
+				case "qerrors.Propagate":
+					if len(ce.Args) == 2 {
+						op, ok1 := t.stringLit(ce.Args[0])
+						if !ok1 {
+							t.fail(ce, "qerrors.Propagate: the operation must be a string literal")
+						}
+						y, ty := t.expr(ce.Args[1], c, pre)
+						return "(err_Propagate " + op + " " + t.conv(ce.Args[1], y, ty, geK("err")) + ")", geK("qerr")
+					}
+				}
+				t.fail(ce, "call outside the scheme: %s", t.src(ce))
+				return "0", geBad
+			}
+			// a method of the receiver struct
+			if v, ok := c.lookup(id.Name); ok && v.ty.k == "struct" && v.coq == "" {
+				g, ok := geFuncs[v.ty.sname+"."+fun.Sel.Name]
+				if !ok {
+					t.fail(ce, "unknown method %s", t.src(ce.Fun))
+					return "0", geBad
+				}
+				var rf []string
+				for _, f := range geImplOf(v.ty.sname).fields {
+					rf = append(rf, v.name+"_"+f.name)
+				}
+				return t.staticCall(g, ce, rf, t.argsFor(g, ce, c, pre), pre)
+			}
+		}
+		y, ty := t.expr(fun.X, c, pre)
+		m := fun.Sel.Name
+		argN := func(n int) bool {
+			if len(ce.Args) != n {
+				t.fail(ce, "%s with %d arguments", t.src(ce.Fun), len(ce.Args))
+				return false
+			}
+			return true
+		}
+		switch ty.k {
+		case "frame":
+			switch m {
+			case "withErr":
+				if argN(1) {
+					a, ta := t.expr(ce.Args[0], c, pre)
+					return "(qf_withErr " + y + " " + t.conv(ce.Args[0], a, ta, geK("err")) + ")", geK("frame")
+				}
+			case "Contains":
+				if argN(1) {
+					a, ta := t.expr(ce.Args[0], c, pre)
+					return t.bind(pre, "qf_Contains "+y+" "+t.conv(ce.Args[0], a, ta, geK("string"))), geK("bool")
+				}
+			case "functionType":
+				if argN(1) {
+					a, ta := t.expr(ce.Args[0], c, pre)
+					return t.bind(pre, "qf_functionType "+y+" "+t.conv(ce.Args[0], a, ta, geK("string"))), &geT{k: "tuple", elems: []*geT{geK("functype"), geK("err")}}
+				}
+			case "Drop", "Apply":
+				want, fn := geK("string"), "qf_Drop"
+				if m == "Apply" {
+					want, fn = geK("instr"), "qf_Apply"
+				}
+				if ce.Ellipsis.IsValid() {
+					if argN(1) {
+						a, ta := t.expr(ce.Args[0], c, pre)
+						if ta.elem() == nil || !ta.elem().same(want) {
+							t.fail(ce, "%s(s...) with s of a type outside the scheme", m)
+						}
+						return t.bind(pre, fn+" "+y+" "+a), geK("frame")
+					}
+				} else {
+					var parts []string
+					for _, arg := range ce.Args {
+						a, ta := t.expr(arg, c, pre)
+						parts = append(parts, t.conv(arg, a, ta, want))
+					}
+					return t.bind(pre, fn+" "+y+" ["+strings.Join(parts, "; ")+"]"), geK("frame")
+				}
+			}
+		case "ctx":
+			if m == "GetFunc" && argN(3) {
+				var as []string
+				for i, want := range []*geT{geK("functype"), geK("argcount"), geK("string")} {
+					a, ta := t.expr(ce.Args[i], c, pre)
+					as = append(as, t.conv(ce.Args[i], a, ta, want))
+				}
+				return t.bind(pre, "ctx_GetFunc "+y+" "+strings.Join(as, " ")), &geT{k: "tuple", elems: []*geT{geK("any"), geK("bool")}}
+			}
+		case "struct":
+			g, ok := geFuncs[ty.sname+"."+m]
+			if ok {
+				var rf []string
+				for _, f := range geImplOf(ty.sname).fields {
+					rf = append(rf, fmt.Sprintf("(ge_%s_f_%s %s)", ty.sname, f.name, y))
+				}
+				return t.staticCall(g, ce, rf, t.argsFor(g, ce, c, pre), pre)
+			}
+		case "iface":
+			// dynamic dispatch
+			var g0 *geFunc
+			for _, im := range geImpls {
+				if g := geFuncs[im.name+"."+m]; g != nil {
+					g0 = g
+					break
+				}
+			}
+			isMethod := false
+			for _, mm := range geMethods {
+				if mm == m {
+					isMethod = true
+				}
+			}
+			if g0 == nil || !isMethod {
+				t.fail(ce, "unknown interface method %s", m)
+				return "0", geBad
+			}
+			args := t.argsFor(g0, ce, c, pre)
+			var parts []string
+			if t.f.group == m {
+				if t.inLoop > 0 {
+					t.fail(ce, "dynamic dispatch inside a loop of a method of the same group")
+				}
+				parts = append(parts, "self")
+				t.usesSelf = true
+			} else {
+				parts = append(parts, "ge_Expression_"+m)
+			}
+			if geGroupFuel[m] {
+				parts = append(parts, "fuel'")
+			}
+			parts = append(parts, y)
+			parts = append(parts, args...)
+			return t.bind(pre, strings.Join(parts, " ")), g0.res
+		}
+		t.fail(ce, "method call outside the scheme: %s", t.src(ce))
+		return "0", geBad
+	}
+	t.fail(ce, "call outside the scheme: %s", t.src(ce))
+	return "0", geBad
+}
+
+// ------------------------------------------------------------------ statements
+
+type geCont func(c geCtx) string
+
+func geWrap(pre []string, body string) string {
+	if len(pre) == 0 {
+		return body
+	}
+	return strings.Join(pre, "\n") + "\n" + body
+}
+
+func geContainsReturn(nodes ...ast.Node) bool {
+	found := false
+	for _, n := range nodes {
+		if n == nil {
+			continue
+		}
+		ast.Inspect(n, func(x ast.Node) bool {
+			if _, ok := x.(*ast.ReturnStmt); ok {
+				found = true
+			}
+			return true
+		})
+	}
+	return found
+}
+
+// assignedOuter: the variables of c that the nodes store into, in the order of c
+func (t *geTr) assignedOuter(c geCtx, nodes ...ast.Node) []geVar {
+	names := map[string]bool{}
+	base := func(e ast.Expr) {
+		for {
+			switch x := e.(type) {
+			case *ast.Ident:
+				names[x.Name] = true
+				return
+			case *ast.IndexExpr:
+				e = x.X
+			case *ast.SliceExpr:
+				e = x.X
+			case *ast.ParenExpr:
+				e = x.X
+			default:
+				return
+			}
+		}
+	}
+	for _, n := range nodes {
+		if n == nil {
+			continue
+		}
+		ast.Inspect(n, func(x ast.Node) bool {
+			switch s := x.(type) {
+			case *ast.AssignStmt:
+				if s.Tok != token.DEFINE {
+					for _, l := range s.Lhs {
+						base(l)
+					}
+				}
+			case *ast.IncDecStmt:
+				base(s.X)
+			case *ast.CallExpr:
+				if id, ok := s.Fun.(*ast.Ident); ok && id.Name == "copy" && len(s.Args) == 2 {
+					base(s.Args[0])
+				}
+			}
+			return true
+		})
+	}
+	var out []geVar
+	seen := map[string]bool{}
+	for i := len(c.vars) - 1; i >= 0; i-- {
+		v := c.vars[i]
+		if names[v.name] && !seen[v.name] && v.coq != "" {
+			seen[v.name] = true
+			out = append([]geVar{v}, out...)
+		}
+	}
+	return out
+}
+
+func geVarTuple(vs []geVar) (val, pat string, ty *geT) {
+	var parts []string
+	ty = &geT{k: "tuple"}
+	for _, v := range vs {
+		parts = append(parts, v.coq)
+		ty.elems = append(ty.elems, v.ty)
+	}
+	if len(parts) == 0 {
+		return "tt", "_", ty
+	}
+	if len(parts) == 1 {
+		return parts[0], parts[0], vs[0].ty
+	}
+	return "(" + strings.Join(parts, ", ") + ")", "(" + strings.Join(parts, ", ") + ")", ty
+}
+
+// declare handles the left side of := for one name
+func (t *geTr) declare(n ast.Node, c geCtx, name string, ty *geT) (geCtx, string) {
+	if name == "_" {
+		return c, "_"
+	}
+	if v, ok := c.lookup(name); ok {
+		if v.level == c.level {
+			if v.coq == "" || !v.ty.same(ty) && ty.k != "bad" && v.ty.k != "bad" {
+				t.fail(n, "%s is redeclared with another type", name)
+			}
+			return c, v.coq
+		}
+		t.fail(n, "the inner variable %s shadows an outer one", name)
+	}
+	if ty.k == "ustring" {
+		ty = geK("string")
+	}
+	if ty.k == "nil" || ty.k == "tuple" {
+		t.fail(n, "the variable %s has no type in the scheme", name)
+	}
+	v := geVar{name: name, coq: "v_" + name, ty: ty, level: c.level}
+	return c.with(v), v.coq
+}
+
+type geBranch struct {
+	head string
+	gen  func(k geCont) string
+}
+
+// branching statement: when no branch returns, the outer variables stored into are joined; otherwise the rest
+// of the block is continued inside the branches that fall through
+func (t *geTr) branching(nodes []ast.Node, c geCtx, k geCont, open string, brs []geBranch, close string) string {
+	var b strings.Builder
+	emit := func(kk geCont) {
+		if open != "" {
+			b.WriteString(open + "\n")
+		}
+		for _, br := range brs {
+			b.WriteString(br.head + "\n" + gsIndent(br.gen(kk)) + "\n")
+		}
+		if close != "" {
+			b.WriteString(close + "\n")
+		}
+	}
+	if !geContainsReturn(nodes...) {
+		vs := t.assignedOuter(c, nodes...)
+		val, pat, _ := geVarTuple(vs)
+		emit(func(geCtx) string { return "Ok " + val })
+		return "do " + pat + " <- (\n" + gsIndent(strings.TrimRight(b.String(), "\n")) + "  );\n" + k(c)
+	}
+	calls := 0
+	emit(func(geCtx) string {
+		calls++
+		before := t.nloops
+		s := k(c)
+		if calls > 1 && t.nloops != before {
+			t.fail(nodes[0], "a loop follows a branching statement with a return in one branch and a fall-through in several")
+		}
+		return s
+	})
+	return strings.TrimRight(b.String(), "\n")
+}
+
+func (t *geTr) stmts(list []ast.Stmt, c geCtx, k geCont) string {
+	if len(list) == 0 {
+		return k(c)
+	}
+	return t.stmt(list[0], c, func(c2 geCtx) string { return t.stmts(list[1:], c2, k) })
+}
+
+func (t *geTr) block(b *ast.BlockStmt, c geCtx, k geCont) string {
+	return t.stmts(b.List, c.inner(), func(geCtx) string { return k(c) })
+}
+
+func (t *geTr) stmt(s ast.Stmt, c geCtx, k geCont) string {
+	switch x := s.(type) {
+	case *ast.EmptyStmt:
+		return k(c)
+	case *ast.BlockStmt:
+		return t.block(x, c, k)
+	case *ast.ReturnStmt:
+		return t.ret(x, c)
+	case *ast.ExprStmt:
+		if ce, ok := x.X.(*ast.CallExpr); ok {
+			if id, ok := ce.Fun.(*ast.Ident); ok {
+				if _, isVar := c.lookup(id.Name); !isVar {
+					switch id.Name {
+					case "panic":
+						return "Panic"
+					case "copy":
+						return t.copyStmt(ce, c, k)
+					}
+				}
+			}
+		}
+		t.fail(s, "expression statement outside the scheme: %s", t.src(s))
+		return "Panic"
+	case *ast.DeclStmt:
+		gd, ok := x.Decl.(*ast.GenDecl)
+		if !ok || gd.Tok != token.VAR {
+			t.fail(s, "declaration outside the scheme")
+			return "Panic"
+		}
+		var pre []string
+		for _, sp := range gd.Specs {
+			vs := sp.(*ast.ValueSpec)
+			if vs.Type == nil || len(vs.Values) != 0 {
+				t.fail(s, "var declaration outside the scheme (var x T only): %s", t.src(s))
+				continue
+			}
+			ty := geResolve(t.src(vs.Type))
+			z, ok := ty.zero()
+			if !ok {
+				t.fail(s, "var of a type without zero value in the scheme: %s", t.src(vs.Type))
+			}
+			for _, id := range vs.Names {
+				var name string
+				c, name = t.declare(s, c, id.Name, ty)
+				pre = append(pre, fmt.Sprintf("let %s := %s in", name, z))
+			}
+		}
+		return geWrap(pre, k(c))
+	case *ast.IncDecStmt:
+		id, ok := x.X.(*ast.Ident)
+		if !ok {
+			t.fail(s, "++ / -- of something that is not a variable")
+			return "Panic"
+		}
+		v, ok := c.lookup(id.Name)
+		if !ok || v.ty.k != "int" {
+			t.fail(s, "++ / -- of something that is not an int variable")
+			return "Panic"
+		}
+		op := "+"
+		if x.Tok == token.DEC {
+			op = "-"
+		}
+		return fmt.Sprintf("let %s := (%s %s 1) in\n", v.coq, v.coq, op) + k(c)
+	case *ast.AssignStmt:
+		return t.assign(x, c, k)
+	case *ast.IfStmt:
+		return t.ifStmt(x, c, k)
+	case *ast.TypeSwitchStmt:
+		return t.typeSwitch(x, c, k)
+	case *ast.ForStmt:
+		return t.forStmt(x, c, k)
+	case *ast.RangeStmt:
+		return t.rangeStmt(x, c, k)
+	}
+	t.fail(s, "statement outside the scheme: %s", strings.SplitN(t.src(s), "\n", 2)[0])
+	return "Panic"
+}
+
+func (t *geTr) ret(x *ast.ReturnStmt, c geCtx) string {
+	var pre []string
+	want := []*geT{t.f.res}
+	if t.f.res.k == "tuple" {
+		want = t.f.res.elems
+	}
+	if len(x.Results) == 1 && len(want) > 1 {
+		ce, ok := x.Results[0].(*ast.CallExpr)
+		if !ok {
+			t.fail(x, "return outside the scheme")
+			return "Panic"
+		}
+		y, ty := t.call(ce, c, &pre)
+		if !ty.same(t.f.res) {
+			t.fail(x, "return of a call with other result types")
+		}
+		return geWrap(pre, "Ok "+y)
+	}
+	if len(x.Results) != len(want) {
+		t.fail(x, "return with %d values, the function has %d results", len(x.Results), len(want))
+		return "Panic"
+	}
+	var parts []string
+	for i, r := range x.Results {
+		y, ty := t.expr(r, c, &pre)
+		parts = append(parts, t.conv(r, y, ty, want[i]))
+	}
+	return geWrap(pre, "Ok "+gcTuple(parts))
+}
+
+func (t *geTr) copyStmt(ce *ast.CallExpr, c geCtx, k geCont) string {
+	if len(ce.Args) != 2 {
+		t.fail(ce, "copy outside the scheme")
+		return "Panic"
+	}
+	var pre []string
+	dst := ce.Args[0]
+	lo := "0"
+	if se, ok := dst.(*ast.SliceExpr); ok && se.Low != nil && se.High == nil && se.Max == nil {
+		l, tl := t.expr(se.Low, c, &pre)
+		t.conv(se.Low, l, tl, geK("int"))
+		lo, dst = l, se.X
+	}
+	id, ok := dst.(*ast.Ident)
+	if !ok {
+		t.fail(ce, "copy into something that is not a variable or v[lo:]: %s", t.src(ce))
+		return "Panic"
+	}
+	v, ok := c.lookup(id.Name)
+	if !ok || v.ty.elem() == nil {
+		t.fail(ce, "copy into something that is not a slice variable")
+		return "Panic"
+	}
+	sText, sTy := t.expr(ce.Args[1], c, &pre)
+	if !sTy.same(v.ty) {
+		t.fail(ce, "copy between slices of different types")
+	}
+	pre = append(pre, fmt.Sprintf("do %s <- ge_copy_at %s %s %s;", v.coq, v.coq, lo, sText))
+	return geWrap(pre, k(c))
+}
+
+// assertion x.(T) with comma-ok as a value: (payload, true) or (zero, false)
+func (t *geTr) assertPair(ta *ast.TypeAssertExpr, c geCtx, pre *[]string) (string, *geT, bool) {
+	if ta.Type == nil {
+		t.fail(ta, "x.(type) outside a switch")
+		return "", geBad, false
+	}
+	y, ty := t.expr(ta.X, c, pre)
+	if ty.k != "any" {
+		t.fail(ta, "type assertion on something that is not an interface{} value: %s", t.src(ta))
+		return "", geBad, false
+	}
+	d := geDynOfSrc(t.src(ta.Type))
+	if d == nil {
+		t.fail(ta, "type assertion to a type outside the scheme: %s", t.src(ta.Type))
+		return "", geBad, false
+	}
+	z, ok := d.ty.zero()
+	if !ok {
+		t.fail(ta, "the asserted type %s has no zero value in the scheme (use if v, ok := x.(T); ok { .. })", d.src)
+		return "", geBad, false
+	}
+	return fmt.Sprintf("(match %s with %s v => (v, true) | _ => (%s, false) end)", y, d.ctor, z), d.ty, true
+}
+
+func (t *geTr) assign(x *ast.AssignStmt, c geCtx, k geCont) string {
+	if x.Tok != token.DEFINE && x.Tok != token.ASSIGN {
+		t.fail(x, "assignment operator outside the scheme: %s", t.src(x))
+		return "Panic"
+	}
+	var pre []string
+	// the left sides: names (declared or assigned)
+	lhsName := func(l ast.Expr, ty *geT, c geCtx) (geCtx, string) {
+		id, ok := l.(*ast.Ident)
+		if !ok {
+			t.fail(l, "left side outside the scheme: %s", t.src(l))
+			return c, "_"
+		}
+		if id.Name == "_" {
+			return c, "_"
+		}
+		if x.Tok == token.DEFINE {
+			return t.declare(l, c, id.Name, ty)
+		}
+		v, ok := c.lookup(id.Name)
+		if !ok || v.coq == "" {
+			t.fail(l, "assignment to an unknown variable %s", id.Name)
+			return c, "_"
+		}
+		if !v.ty.same(ty) && ty.k != "bad" {
+			// the value must be convertible
+			t.conv(l, "", ty, v.ty)
+		}
+		return c, v.coq
+	}
+	if len(x.Lhs) == 2 && len(x.Rhs) == 1 {
+		var val string
+		var tys []*geT
+		switch r := x.Rhs[0].(type) {
+		case *ast.TypeAssertExpr:
+			text, ty, ok := t.assertPair(r, c, &pre)
+			if !ok {
+				return "Panic"
+			}
+			val, tys = text, []*geT{ty, geK("bool")}
+		case *ast.CallExpr:
+			text, ty := t.call(r, c, &pre)
+			if ty.k != "tuple" || len(ty.elems) != 2 {
+				t.fail(x, "two variables are assigned from a call with another number of results: %s", t.src(x))
+				return "Panic"
+			}
+			val, tys = text, ty.elems
+		default:
+			t.fail(x, "assignment outside the scheme: %s", t.src(x))
+			return "Panic"
+		}
+		c2 := c
+		var names []string
+		for i, l := range x.Lhs {
+			var n string
+			c2, n = lhsName(l, tys[i], c2)
+			names = append(names, n)
+		}
+		pre = append(pre, fmt.Sprintf("let '(%s) := %s in", strings.Join(names, ", "), val))
+		return geWrap(pre, k(c2))
+	}
+	if len(x.Lhs) != len(x.Rhs) {
+		t.fail(x, "assignment outside the scheme: %s", t.src(x))
+		return "Panic"
+	}
+	if len(x.Lhs) == 1 {
+		if ie, ok := x.Lhs[0].(*ast.IndexExpr); ok && x.Tok == token.ASSIGN {
+			id, ok := ie.X.(*ast.Ident)
+			if !ok {
+				t.fail(x, "store outside the scheme: %s", t.src(x))
+				return "Panic"
+			}
+			v, ok := c.lookup(id.Name)
+			if !ok || v.ty.elem() == nil {
+				t.fail(x, "store into something that is not a slice variable")
+				return "Panic"
+			}
+			i, ti := t.expr(ie.Index, c, &pre)
+			t.conv(ie.Index, i, ti, geK("int"))
+			y, ty := t.expr(x.Rhs[0], c, &pre)
+			pre = append(pre, fmt.Sprintf("do %s <- ge_update %s %s %s;", v.coq, v.coq, i, t.conv(x.Rhs[0], y, ty, v.ty.elem())))
+			return geWrap(pre, k(c))
+		}
+	}
+	var vals []string
+	var tys []*geT
+	for _, r := range x.Rhs {
+		y, ty := t.expr(r, c, &pre)
+		vals = append(vals, y)
+		tys = append(tys, ty)
+	}
+	c2 := c
+	var names []string
+	for i, l := range x.Lhs {
+		want := tys[i]
+		if x.Tok == token.ASSIGN {
+			if id, ok := l.(*ast.Ident); ok {
+				if v, ok := c.lookup(id.Name); ok {
+					vals[i] = t.conv(x.Rhs[i], vals[i], tys[i], v.ty)
+					want = v.ty
+				}
+			}
+		}
+		var n string
+		c2, n = lhsName(l, want, c2)
+		names = append(names, n)
+	}
+	if len(names) == 1 {
+		pre = append(pre, fmt.Sprintf("let %s := %s in", names[0], vals[0]))
+	} else {
+		pre = append(pre, fmt.Sprintf("let '(%s) := (%s) in", strings.Join(names, ", "), strings.Join(vals, ", ")))
+	}
+	return geWrap(pre, k(c2))
+}
+
+func (t *geTr) ifStmt(x *ast.IfStmt, c geCtx, k geCont) string {
+	nodes := []ast.Node{x.Body}
+	if x.Else != nil {
+		nodes = append(nodes, x.Else)
+	}
+	elseGen := func(ce geCtx) func(kk geCont) string {
+		return func(kk geCont) string {
+			if x.Else == nil {
+				return kk(c)
+			}
+			return t.stmts([]ast.Stmt{x.Else}, ce.inner(), func(geCtx) string { return kk(c) })
+		}
+	}
+	ci := c.inner()
+	// if v, ok := x.(T); ok { A } else { B }
+	if as, ok := x.Init.(*ast.AssignStmt); ok && as.Tok == token.DEFINE && len(as.Lhs) == 2 && len(as.Rhs) == 1 {
+		if ta, ok := as.Rhs[0].(*ast.TypeAssertExpr); ok && ta.Type != nil {
+			vId, ok1 := as.Lhs[0].(*ast.Ident)
+			okId, ok2 := as.Lhs[1].(*ast.Ident)
+			cId, ok3 := x.Cond.(*ast.Ident)
+			if ok1 && ok2 && ok3 && cId.Name == okId.Name && okId.Name != "_" {
+				var pre []string
+				y, ty := t.expr(ta.X, c, &pre)
+				if ty.k != "any" {
+					t.fail(ta, "type assertion on something that is not an interface{} value: %s", t.src(ta))
+					return "Panic"
+				}
+				d := geDynOfSrc(t.src(ta.Type))
+				if d == nil {
+					t.fail(ta, "type assertion to a type outside the scheme: %s", t.src(ta.Type))
+					return "Panic"
+				}
+				cA := ci.with(geVar{name: okId.Name, coq: "true", ty: geK("bool"), level: ci.level})
+				cB := ci.with(geVar{name: okId.Name, coq: "false", ty: geK("bool"), level: ci.level})
+				pat := "_"
+				if vId.Name != "_" {
+					pat = "v_" + vId.Name
+					cA = cA.with(geVar{name: vId.Name, coq: pat, ty: d.ty, level: ci.level})
+					if z, ok := d.ty.zero(); ok {
+						cB = cB.with(geVar{name: vId.Name, coq: z, ty: d.ty, level: ci.level})
+					}
+				}
+				if names := t.assignedOuter(ci.with(geVar{name: okId.Name, coq: "x", ty: geK("bool")}).with(geVar{name: vId.Name, coq: "x", ty: d.ty}), nodes...); func() bool {
+					for _, v := range names {
+						if v.name == okId.Name || v.name == vId.Name {
+							return true
+						}
+					}
+					return false
+				}() {
+					t.fail(x, "the variables of the assertion are stored into")
+				}
+				brs := []geBranch{
+					{"| " + d.ctor + " " + pat + " =>", func(kk geCont) string {
+						return t.stmts(x.Body.List, cA.inner(), func(geCtx) string { return kk(c) })
+					}},
+					{"| _ =>", elseGen(cB)},
+				}
+				return geWrap(pre, t.branching(nodes, c, k, "match "+y+" with", brs, "end"))
+			}
+		}
+	}
+	core := func(c2 geCtx) string {
+		var pre []string
+		cond, tc := t.expr(x.Cond, c2, &pre)
+		t.conv(x.Cond, cond, tc, geK("bool"))
+		brs := []geBranch{
+			{"if " + cond + " then", func(kk geCont) string {
+				return t.stmts(x.Body.List, c2.inner(), func(geCtx) string { return kk(c) })
+			}},
+			{"else", elseGen(c2)},
+		}
+		return geWrap(pre, t.branching(nodes, c, k, "", brs, ""))
+	}
+	if x.Init != nil {
+		return t.stmt(x.Init, ci, core)
+	}
+	return core(ci)
+}
+
+func (t *geTr) typeSwitch(x *ast.TypeSwitchStmt, c geCtx, k geCont) string {
+	if x.Init != nil {
+		t.fail(x, "type switch with an init statement")
+		return "Panic"
+	}
+	var ta *ast.TypeAssertExpr
+	bindName := ""
+	switch a := x.Assign.(type) {
+	case *ast.ExprStmt:
+		ta, _ = a.X.(*ast.TypeAssertExpr)
+	case *ast.AssignStmt:
+		if len(a.Lhs) == 1 && len(a.Rhs) == 1 {
+			ta, _ = a.Rhs[0].(*ast.TypeAssertExpr)
+			bindName = a.Lhs[0].(*ast.Ident).Name
+		}
+	}
+	if ta == nil {
+		t.fail(x, "type switch outside the scheme")
+		return "Panic"
+	}
+	var pre []string
+	y, ty := t.expr(ta.X, c, &pre)
+	if ty.k != "any" {
+		t.fail(x, "type switch on something that is not an interface{} value")
+		return "Panic"
+	}
+	nodes := []ast.Node{x.Body}
+	var brs []geBranch
+	var def *ast.CaseClause
+	seen := map[string]bool{}
+	ci := c.inner()
+	for _, cl := range x.Body.List {
+		cc := cl.(*ast.CaseClause)
+		if cc.List == nil {
+			def = cc
+			continue
+		}
+		var pats []string
+		cb := ci
+		for _, e := range cc.List {
+			src := t.src(e)
+			if seen[src] {
+				t.fail(e, "the type %s occurs in two cases", src)
+			}
+			seen[src] = true
+			if src == "nil" {
+				pats = append(pats, "ge_dyn_nil")
+				continue
+			}
+			d := geDynOfSrc(src)
+			if d == nil {
+				t.fail(e, "case of a type outside the scheme: %s", src)
+				continue
+			}
+			if bindName != "" && len(cc.List) == 1 {
+				pats = append(pats, d.ctor+" v_"+bindName)
+				cb = cb.with(geVar{name: bindName, coq: "v_" + bindName, ty: d.ty, level: ci.level})
+			} else {
+				pats = append(pats, d.ctor+" _")
+			}
+		}
+		if bindName != "" && len(cc.List) != 1 {
+			cb = cb.with(geVar{name: bindName, coq: y, ty: geK("any"), level: ci.level})
+		}
+		body := cc.Body
+		cbb := cb
+		brs = append(brs, geBranch{"| " + strings.Join(pats, " | ") + " =>", func(kk geCont) string {
+			return t.stmts(body, cbb.inner(), func(geCtx) string { return kk(c) })
+		}})
+	}
+	cd := ci
+	if bindName != "" {
+		cd = cd.with(geVar{name: bindName, coq: y, ty: geK("any"), level: ci.level})
+	}
+	brs = append(brs, geBranch{"| _ =>", func(kk geCont) string {
+		if def == nil {
+			return kk(c)
+		}
+		return t.stmts(def.Body, cd.inner(), func(geCtx) string { return kk(c) })
+	}})
+	for _, cl := range x.Body.List {
+		for _, s := range cl.(*ast.CaseClause).Body {
+			if _, ok := s.(*ast.BranchStmt); ok {
+				t.fail(s, "break / fallthrough in a type switch")
+			}
+		}
+	}
+	return geWrap(pre, t.branching(nodes, c, k, "match "+y+" with", brs, "end"))
+}
+
+// loopParams: the variables of c the text mentions (innermost binding of each Coq name), minus those excluded
+func geLoopParams(c geCtx, text string, exclude map[string]bool) []geVar {
+	var out []geVar
+	seen := map[string]bool{}
+	for i := len(c.vars) - 1; i >= 0; i-- {
+		v := c.vars[i]
+		names := []string{v.coq}
+		if v.coq == "" { // the receiver: its fields
+			names = nil
+			for _, f := range geImplOf(v.ty.sname).fields {
+				names = append(names, v.name+"_"+f.name)
+			}
+		}
+		for j, n := range names {
+			if seen[n] || exclude[n] || !strings.HasPrefix(n, "v_") && v.coq != "" {
+				continue
+			}
+			seen[n] = true
+			if gsMentions(text, n) {
+				ty := v.ty
+				if v.coq == "" {
+					ty = geImplOf(v.ty.sname).fields[j].ty
+				}
+				out = append([]geVar{{name: n, coq: n, ty: ty}}, out...)
+			}
+		}
+	}
+	return out
+}
+
+const geCallMark = "@@LOOPCALL@@"
+
+func (t *geTr) loopName() string {
+	t.nloops++
+	return fmt.Sprintf("%s_loop%d", t.f.coq, t.nloops)
+}
+
+func (t *geTr) forStmt(x *ast.ForStmt, c geCtx, k geCont) string {
+	if x.Cond == nil {
+		t.fail(x, "for without a condition")
+		return "Panic"
+	}
+	gen := func(c2 geCtx) string {
+		hasRet := geContainsReturn(x.Body)
+		nodes := []ast.Node{x.Body}
+		if x.Post != nil {
+			nodes = append(nodes, x.Post)
+		}
+		outVars := t.assignedOuter(c, nodes...)
+		val, pat, rty := geVarTuple(outVars)
+		t.inLoop++
+		var pre []string
+		cond, tc := t.expr(x.Cond, c2, &pre)
+		t.conv(x.Cond, cond, tc, geK("bool"))
+		body := t.stmts(x.Body.List, c2.inner(), func(geCtx) string {
+			if x.Post == nil {
+				return geCallMark
+			}
+			return t.stmt(x.Post, c2, func(geCtx) string { return geCallMark })
+		})
+		t.inLoop--
+		name := t.loopName()
+		exit := "Ok " + val
+		if hasRet {
+			exit = k(c)
+			rty = t.f.res
+		}
+		text := geWrap(pre, "if "+cond+" then\n"+gsIndent(body)+"\nelse\n"+gsIndent(exit))
+		if gsMentions(text, "self") {
+			t.fail(x, "dynamic dispatch inside a loop of a method of the same group")
+		}
+		params := geLoopParams(c2, text, nil)
+		var sig, args []string
+		if gsMentions(text, "fuel'") {
+			sig = append(sig, "(fuel' : nat)")
+			args = append(args, "fuel'")
+		}
+		sig = append(sig, "(k : nat)")
+		var vargs []string
+		for _, p := range params {
+			sig = append(sig, fmt.Sprintf("(%s : %s)", p.coq, p.ty.coq()))
+			vargs = append(vargs, p.coq)
+		}
+		rec := strings.Join(append(append([]string{name}, args...), append([]string{"k'"}, vargs...)...), " ")
+		text = strings.ReplaceAll(text, geCallMark, rec)
+		t.f.loops = append(t.f.loops, fmt.Sprintf("Fixpoint %s %s {struct k} : outcome %s :=\n  match k with\n  | O => Panic\n  | S k' =>\n%s\n  end.\n", name, strings.Join(sig, " "), rty.coq(), gsIndent(gsIndent(text))))
+		call := strings.Join(append(append([]string{name}, args...), append([]string{"fuel'"}, vargs...)...), " ")
+		if hasRet {
+			return call
+		}
+		return "do " + pat + " <- " + call + ";\n" + k(c)
+	}
+	ci := c.inner()
+	if x.Init != nil {
+		return t.stmt(x.Init, ci, gen)
+	}
+	return gen(ci)
+}
+
+func (t *geTr) rangeStmt(x *ast.RangeStmt, c geCtx, k geCont) string {
+	if x.Tok != token.DEFINE && (x.Key != nil || x.Value != nil) {
+		t.fail(x, "range with assignment to existing variables")
+		return "Panic"
+	}
+	var pre []string
+	xs, xty := t.expr(x.X, c, &pre)
+	el := xty.elem()
+	if el == nil {
+		t.fail(x, "range over something that is not a slice: %s", t.src(x.X))
+		return "Panic"
+	}
+	ci := c.inner()
+	keyCoq, valPat := "", "_"
+	exclude := map[string]bool{}
+	if id, ok := x.Key.(*ast.Ident); ok && id.Name != "_" {
+		ci, keyCoq = t.declare(x, ci, id.Name, geK("int"))
+		exclude[keyCoq] = true
+	}
+	if id, ok := x.Value.(*ast.Ident); ok && id.Name != "_" {
+		ci, valPat = t.declare(x, ci, id.Name, el)
+		exclude[valPat] = true
+	}
+	hasRet := geContainsReturn(x.Body)
+	outVars := t.assignedOuter(c, x.Body)
+	for _, v := range outVars {
+		if id, ok := x.X.(*ast.Ident); ok && id.Name == v.name {
+			t.fail(x, "the ranged slice is stored into by the body")
+		}
+	}
+	val, pat, rty := geVarTuple(outVars)
+	t.inLoop++
+	body := t.stmts(x.Body.List, ci.inner(), func(geCtx) string { return geCallMark })
+	t.inLoop--
+	name := t.loopName()
+	exit := "Ok " + val
+	if hasRet {
+		exit = k(c)
+		rty = t.f.res
+	}
+	all := body + "\n" + exit
+	if gsMentions(all, "self") {
+		t.fail(x, "dynamic dispatch inside a loop of a method of the same group")
+	}
+	params := geLoopParams(ci, all, exclude)
+	var sig, args, vargs []string
+	if gsMentions(all, "fuel'") {
+		sig = append(sig, "(fuel' : nat)")
+		args = append(args, "fuel'")
+	}
+	sig = append(sig, fmt.Sprintf("(l : list %s)", strings.Trim(el.coq(), "()")))
+	recHead := append(append([]string{name}, args...), "l'")
+	callHead := append(append([]string{name}, args...), xs)
+	if keyCoq != "" {
+		sig = append(sig, "("+keyCoq+" : Z)")
+		recHead = append(recHead, "("+keyCoq+" + 1)")
+		callHead = append(callHead, "0")
+	}
+	for _, p := range params {
+		sig = append(sig, fmt.Sprintf("(%s : %s)", p.coq, p.ty.coq()))
+		vargs = append(vargs, p.coq)
+	}
+	body = strings.ReplaceAll(body, geCallMark, strings.Join(append(recHead, vargs...), " "))
+	t.f.loops = append(t.f.loops, fmt.Sprintf("Fixpoint %s %s {struct l} : outcome %s :=\n  match l with\n  | [] =>\n%s\n  | %s :: l' =>\n%s\n  end.\n", name, strings.Join(sig, " "), rty.coq(), gsIndent(gsIndent(exit)), valPat, gsIndent(gsIndent(body))))
+	call := strings.Join(append(callHead, vargs...), " ")
+	if hasRet {
+		return geWrap(pre, call)
+	}
+	return geWrap(pre, "do "+pat+" <- "+call+";\n"+k(c))
+}
+
+// ------------------------------------------------------------------ functions
+
+func geCoqName(goName string) string { return "ge_" + strings.ReplaceAll(goName, ".", "_") }
+
+func geSignature(p *pkgInfo, f *geFunc) bool {
+	t := &geTr{p: p, f: f}
+	fd := f.fd
+	if fd.Recv != nil {
+		if len(fd.Recv.List) != 1 || len(fd.Recv.List[0].Names) > 1 {
+			t.fail(fd, "receiver outside the scheme")
+			return false
+		}
+		ty := geResolve(t.src(fd.Recv.List[0].Type))
+		if ty.k != "struct" {
+			t.fail(fd, "a method of a type that is not an implementer of Expression")
+			return false
+		}
+		name := "_"
+		if len(fd.Recv.List[0].Names) == 1 {
+			name = fd.Recv.List[0].Names[0].Name
+		}
+		if name == "_" {
+			name = "recv"
+		}
+		f.recv = &geVar{name: name, coq: "", ty: ty}
+		f.impl = geImplOf(ty.sname)
+		for _, m := range geMethods {
+			if m == f.short {
+				f.group = m
+			}
+		}
+	}
+	nparams := len(fd.Type.Params.List)
+	for i, fl := range fd.Type.Params.List {
+		ty := geResolve(t.src(fl.Type))
+		if ty.k == "bad" {
+			t.fail(fl, "parameter type outside the scheme: %s", t.src(fl.Type))
+		}
+		if _, isEll := fl.Type.(*ast.Ellipsis); isEll {
+			if i != nparams-1 || len(fl.Names) != 1 {
+				t.fail(fl, "variadic parameter outside the scheme")
+			}
+			f.variadic = true
+		}
+		if len(fl.Names) == 0 {
+			t.fail(fd, "parameter without name")
+		}
+		for _, n := range fl.Names {
+			coq := "v_" + n.Name
+			if n.Name == "_" {
+				coq = "_"
+			}
+			f.params = append(f.params, geVar{name: n.Name, coq: coq, ty: ty})
+		}
+	}
+	if fd.Type.Results == nil || len(fd.Type.Results.List) == 0 {
+		t.fail(fd, "a function without result")
+		return false
+	}
+	var rs []*geT
+	for _, fl := range fd.Type.Results.List {
+		if len(fl.Names) != 0 {
+			t.fail(fd, "named results")
+		}
+		ty := geResolve(t.src(fl.Type))
+		if ty.k == "bad" {
+			t.fail(fl, "result type outside the scheme: %s", t.src(fl.Type))
+		}
+		rs = append(rs, ty)
+	}
+	if len(rs) == 1 {
+		f.res = rs[0]
+	} else {
+		f.res = &geT{k: "tuple", elems: rs}
+	}
+	return !t.bad
+}
+
+// geAnalyse: the static call graph (which translated functions a function calls directly, which interface
+// methods it calls dynamically), syntactically; the receiver types of method calls are found by the translation
+// itself, here every x.m(..) with m the name of a method of an implementer counts as possibly static AND dynamic
+// unless x is a known struct variable.
+func geAnalyse(f *geFunc) (hasCondFor bool) {
+	f.static, f.dynamic = map[string]bool{}, map[string]bool{}
+	structVars := map[string]string{} // local variable -> struct name (from x, _ := newT(..) / x := T{..})
+	if f.recv != nil {
+		structVars[f.recv.name] = f.recv.ty.sname
+	}
+	ast.Inspect(f.fd.Body, func(n ast.Node) bool {
+		switch x := n.(type) {
+		case *ast.ForStmt:
+			hasCondFor = true
+		case *ast.AssignStmt:
+			if len(x.Rhs) == 1 {
+				if ce, ok := x.Rhs[0].(*ast.CallExpr); ok {
+					if id, ok := ce.Fun.(*ast.Ident); ok {
+						if g := geFuncs[id.Name]; g != nil && g.res != nil {
+							rs := []*geT{g.res}
+							if g.res.k == "tuple" {
+								rs = g.res.elems
+							}
+							for i, l := range x.Lhs {
+								if lid, ok := l.(*ast.Ident); ok && i < len(rs) && rs[i].k == "struct" {
+									structVars[lid.Name] = rs[i].sname
+								}
+							}
+						}
+					}
+				}
+				if cl, ok := x.Rhs[0].(*ast.CompositeLit); ok && len(x.Lhs) == 1 {
+					if id, ok := cl.Type.(*ast.Ident); ok && geImplOf(id.Name) != nil {
+						if lid, ok := x.Lhs[0].(*ast.Ident); ok {
+							structVars[lid.Name] = id.Name
+						}
+					}
+				}
+			}
+		}
+		return true
+	})
+	ast.Inspect(f.fd.Body, func(n ast.Node) bool {
+		ce, ok := n.(*ast.CallExpr)
+		if !ok {
+			return true
+		}
+		switch fun := ce.Fun.(type) {
+		case *ast.Ident:
+			if geFuncs[fun.Name] != nil {
+				f.static[fun.Name] = true
+			}
+		case *ast.SelectorExpr:
+			m := fun.Sel.Name
+			if id, ok := fun.X.(*ast.Ident); ok {
+				if sn, ok := structVars[id.Name]; ok {
+					if geFuncs[sn+"."+m] != nil {
+						f.static[sn+"."+m] = true
+					}
+					return true
+				}
+			}
+			for _, mm := range geMethods {
+				if mm == m {
+					f.dynamic[m] = true
+				}
+			}
+		}
+		return true
+	})
+	return
+}
+
+func geSource(p *pkgInfo, fd *ast.FuncDecl) string { return gcSource(p, fd) }
+
+func (t *geTr) selfType() string {
+	g := t.f
+	var parts []string
+	if geGroupFuel[g.group] {
+		parts = append(parts, "nat")
+	}
+	parts = append(parts, "ge_Expression")
+	for _, v := range g.params {
+		parts = append(parts, v.ty.coq())
+	}
+	parts = append(parts, "outcome "+g.res.coq())
+	return strings.Join(parts, " -> ")
+}
+
+func geTranslate(p *pkgInfo, f *geFunc) {
+	t := &geTr{p: p, f: f}
+	c := geCtx{}
+	var sig []string
+	if f.recv != nil {
+		c.vars = append(c.vars, *f.recv)
+		for _, fl := range f.impl.fields {
+			sig = append(sig, fmt.Sprintf("(%s_%s : %s)", f.recv.name, fl.name, fl.ty.coq()))
+		}
+	}
+	for _, v := range f.params {
+		if v.name != "_" {
+			c.vars = append(c.vars, v)
+		}
+		sig = append(sig, fmt.Sprintf("(%s : %s)", v.coq, v.ty.coq()))
+	}
+	body := t.stmts(f.fd.Body.List, c, func(geCtx) string {
+		t.fail(f.fd, "the function can fall off its end")
+		return "Panic"
+	})
+	f.needsSelf = t.usesSelf
+	if f.needsFuel {
+		sig = append([]string{"(fuel : nat)"}, sig...)
+		body = "match fuel with\n| O => Panic\n| S fuel' =>\n" + gsIndent(body) + "\nend"
+	} else if gsMentions(body, "fuel'") {
+		t.fail(f.fd, "a function without fuel uses fuel")
+	}
+	for _, l := range f.loops {
+		for _, m := range f.scc {
+			if len(f.scc) > 1 || f.recursive {
+				if gsMentions(l, geCoqName(m)) {
+					t.fail(f.fd, "a loop calls a function of the recursive group")
+				}
+			}
+		}
+	}
+	if f.needsSelf {
+		sig = append([]string{"(self : " + t.selfType() + ")"}, sig...)
+	}
+	structArg := ""
+	if f.recursive {
+		structArg = " {struct fuel}"
+	}
+	sep := " "
+	if len(sig) == 0 {
+		sep = ""
+	}
+	f.sigText = fmt.Sprintf("%s%s%s%s : outcome %s", f.coq, sep, strings.Join(sig, " "), structArg, f.res.coq())
+	f.bodyText = gsIndent(body)
+	f.ok = !t.bad
+}
+
+func geDispatcher(m string) (string, bool) {
+	ok := true
+	var b strings.Builder
+	var g0 *geFunc
+	for _, im := range geImpls {
+		if g := geFuncs[im.name+"."+m]; g != nil && g.res != nil {
+			g0 = g
+			break
+		}
+	}
+	if g0 == nil {
+		return "", false
+	}
+	sig := ""
+	if geGroupFuel[m] {
+		sig = "(fuel : nat) "
+	}
+	sig += "(x : ge_Expression)"
+	extra := ""
+	for i, v := range g0.params {
+		sig += fmt.Sprintf(" (a%d : %s)", i+1, v.ty.coq())
+		extra += fmt.Sprintf(" a%d", i+1)
+	}
+	fmt.Fprintf(&b, "(* x.%s(..) for x of the interface type Expression: dynamic dispatch *)\n", m)
+	kw, st := "Definition", ""
+	for _, im := range geImpls {
+		if g := geFuncs[im.name+"."+m]; g != nil && g.needsSelf {
+			kw, st = "Fixpoint", " {struct x}"
+		}
+	}
+	fmt.Fprintf(&b, "%s ge_Expression_%s %s%s : outcome %s :=\n  match x with\n", kw, m, sig, st, g0.res.coq())
+	for _, im := range geImpls {
+		g := geFuncs[im.name+"."+m]
+		if g == nil || !g.ok || g.res == nil || !g.res.same(g0.res) || len(g.params) != len(g0.params) {
+			ok = false
+			continue
+		}
+		pat := []string{"ge_mk_" + im.name}
+		call := []string{g.coq}
+		if g.needsSelf {
+			call = append(call, "ge_Expression_"+m)
+		}
+		if g.needsFuel {
+			call = append(call, "fuel")
+		}
+		for _, f := range im.fields {
+			pat = append(pat, "x_"+f.name)
+			call = append(call, "x_"+f.name)
+		}
+		fmt.Fprintf(&b, "  | %s => %s%s\n", strings.Join(pat, " "), strings.Join(call, " "), extra)
+	}
+	b.WriteString("  end.\n")
+	return b.String(), ok
+}
+
+func genExprTree() string {
+	geFuncs = map[string]*geFunc{}
+	geOrder = nil
+	geGroupFuel = map[string]bool{}
+	root := loadPkg(".")
+	for _, v := range geVocabulary {
+		vp := loadPkg(v.pkg)
+		fd, ok := vp.funcs[v.fn]
+		if !ok || fd.Body == nil {
+			problem("expression translation: %s not found in %s", v.fn, v.pkg)
+			continue
+		}
+		cp := *fd
+		cp.Doc = nil
+		if !strings.Contains(v.text, "{\n") {
+			cp.Body = nil
+		}
+		if gcSrc(vp.fset, &cp) != v.text {
+			problem("expression translation: %s of %s is not the text the fixed vocabulary of the translation stands for", v.fn, v.pkg)
+		}
+	}
+	typesOk := geLoadTypes(root)
+	golden := ""
+	if fl := flag.Lookup("golden"); fl != nil && fl.Value.String() != "" {
+		if gb, err := os.ReadFile(filepath.Join(fl.Value.String(), "GenExprTree.v")); err == nil {
+			golden = string(gb)
+		}
+	}
+	var b strings.Builder
+	b.WriteString(gePreamble)
+	block := func(name, text string, ok bool) {
+		if !ok {
+			old, found := gfGoldenBlock(golden, name)
+			if !found {
+				return
+			}
+			text = "(* FALLBACK " + name + ": not derivable from the current source; text of the last validated tree *)\n" + old
+		}
+		fmt.Fprintf(&b, "(* BEGIN %s *)\n%s(* END %s *)\n\n", name, text, name)
+	}
+	block("ge_Any", geInductive(), typesOk)
+	file, found := root.files[geFile]
+	if !found {
+		b.WriteString("End GenExprTree.\n")
+		return b.String()
+	}
+	// every function of the file, in source order
+	for _, d := range file.Decls {
+		fd, ok := d.(*ast.FuncDecl)
+		if !ok || fd.Body == nil {
+			continue
+		}
+		name := fd.Name.Name
+		if fd.Recv != nil && len(fd.Recv.List) == 1 {
+			name = recvName(fd.Recv.List[0].Type) + "." + name
+		}
+		f := &geFunc{goName: name, short: fd.Name.Name, fd: fd, coq: geCoqName(name)}
+		geFuncs[name] = f
+		geOrder = append(geOrder, name)
+	}
+	for _, n := range geOrder {
+		f := geFuncs[n]
+		if !geSignature(root, f) {
+			f.res = nil
+		}
+	}
+	// call graph; nodes: functions and "dispatch:<m>"
+	condFor := map[string]bool{}
+	deps := map[string][]string{}
+	var nodes []string
+	for _, n := range geOrder {
+		f := geFuncs[n]
+		nodes = append(nodes, n)
+		if f.res == nil {
+			continue
+		}
+		condFor[n] = geAnalyse(f)
+		for _, g := range geOrder { // in source order, for a stable result
+			if f.static[g] {
+				deps[n] = append(deps[n], g)
+			}
+		}
+		for _, m := range geMethods {
+			if f.dynamic[m] && f.group != m {
+				deps[n] = append(deps[n], "dispatch:"+m)
+			}
+		}
+	}
+	for _, m := range geMethods {
+		nodes = append(nodes, "dispatch:"+m)
+		for _, im := range geImpls {
+			deps["dispatch:"+m] = append(deps["dispatch:"+m], im.name+"."+m)
+		}
+	}
+	// strongly connected components in reverse topological order (Tarjan): callees first
+	var sccs [][]string
+	{
+		index, low, on := map[string]int{}, map[string]int{}, map[string]bool{}
+		var stack []string
+		next := 0
+		var visit func(v string)
+		visit = func(v string) {
+			next++
+			index[v], low[v] = next, next
+			stack = append(stack, v)
+			on[v] = true
+			for _, w := range deps[v] {
+				if index[w] == 0 {
+					visit(w)
+					if low[w] < low[v] {
+						low[v] = low[w]
+					}
+				} else if on[w] && index[w] < low[v] {
+					low[v] = index[w]
+				}
+			}
+			if low[v] == index[v] {
+				var comp []string
+				for {
+					w := stack[len(stack)-1]
+					stack = stack[:len(stack)-1]
+					on[w] = false
+					comp = append([]string{w}, comp...)
+					if w == v {
+						break
+					}
+				}
+				sccs = append(sccs, comp)
+			}
+		}
+		for _, v := range nodes {
+			if index[v] == 0 {
+				visit(v)
+			}
+		}
+	}
+	for _, comp := range sccs {
+		self := false
+		for _, w := range deps[comp[0]] {
+			if w == comp[0] {
+				self = true
+			}
+		}
+		if len(comp) > 1 || self {
+			// members in source order
+			var ordered []string
+			for _, n := range nodes {
+				for _, w := range comp {
+					if w == n {
+						ordered = append(ordered, n)
+					}
+				}
+			}
+			copy(comp, ordered)
+			for _, w := range comp {
+				f := geFuncs[w]
+				if f == nil || f.recv != nil {
+					problem("expression translation: recursion through %s is outside the scheme (only free functions may be recursive)", w)
+					continue
+				}
+				f.recursive = true
+				f.scc = comp
+			}
+		}
+	}
+	// fuel: least fixed point
+	for changed := true; changed; {
+		changed = false
+		for _, n := range geOrder {
+			f := geFuncs[n]
+			if f.res == nil || f.needsFuel {
+				continue
+			}
+			need := condFor[n] || f.recursive
+			for g := range f.static {
+				if geFuncs[g].needsFuel {
+					need = true
+				}
+			}
+			for m := range f.dynamic {
+				if geGroupFuel[m] {
+					need = true
+				}
+			}
+			if need {
+				f.needsFuel = true
+				if f.group != "" {
+					geGroupFuel[f.group] = true
+				}
+				changed = true
+			}
+		}
+	}
+	// emission
+	dispatched := map[string]bool{}
+	for _, comp := range sccs {
+		if strings.HasPrefix(comp[0], "dispatch:") {
+			if len(comp) > 1 {
+				problem("expression translation: the dispatcher of %s is part of a cycle of the call graph", comp[0])
+			}
+			m := strings.TrimPrefix(comp[0], "dispatch:")
+			text, ok := geDispatcher(m)
+			dispatched[m] = true
+			block("ge_Expression_"+m, text, ok)
+			continue
+		}
+		allOk := true
+		var text strings.Builder
+		var defs []string
+		for _, n := range comp {
+			f := geFuncs[n]
+			if f.res != nil {
+				geTranslate(root, f)
+			}
+			if !f.ok {
+				allOk = false
+				continue
+			}
+			pk := "qframe"
+			fmt.Fprintf(&text, "(* %s\n%s *)\n", pk, geSource(root, f.fd))
+			for _, l := range f.loops {
+				text.WriteString(l)
+			}
+			defs = append(defs, f.sigText+" :=\n"+f.bodyText)
+		}
+		if allOk {
+			kw := "Definition"
+			if geFuncs[comp[0]].recursive {
+				kw = "Fixpoint"
+			}
+			text.WriteString(kw + " " + strings.Join(defs, "\nwith ") + ".\n")
+		}
+		block(geFuncs[comp[0]].coq, text.String(), allOk)
+	}
+	b.WriteString("End GenExprTree.\n")
+	return b.String()
+}
